@@ -175,9 +175,9 @@ theorem onRun_owned (k : CS → Oracle → List Out → Option Time → PA) (res
   intro cid e h
   unfold onRun at h
   dsimp only at h
-  have hIL := innerLoop_noFinish c.env.now 64 { c.dev with wake := none } a o [] (by simp)
-  have hIC := innerLoop_clientId c.env.now 64 { c.dev with wake := none } a o []
-  generalize innerLoop c.env.now 64 { c.dev with wake := none } a o [] = r at *
+  have hIL := innerLoop_noFinish c.env.now (loopBound a) { c.dev with wake := none } a o [] (by simp)
+  have hIC := innerLoop_clientId c.env.now (loopBound a) { c.dev with wake := none } a o []
+  generalize innerLoop c.env.now (loopBound a) { c.dev with wake := none } a o [] = r at *
   have hadv := advance_clientId r.act
   generalize advance r.act = a' at *
   have noF : Out.finish cid e ∈ out ++ r.out → Out.finish cid e ∈ out := by
